@@ -72,9 +72,11 @@ impl VerbatimUrl {
         let mut url = Url::from_file_path(path.clone())
             .map_err(|()| VerbatimUrlError::UrlConversion(path.to_path_buf()))?;
 
-        // Set the fragment, if it exists.
+        // Set the fragment, if it exists. The path was percent-decoded (or never encoded), while a
+        // file URL is decoded again when it is parsed back: keep a literal `%` as `%25` so that the
+        // displayed URL denotes the same fragment.
         if let Some(fragment) = fragment {
-            url.set_fragment(Some(fragment));
+            url.set_fragment(Some(&fragment.replace('%', "%25")));
         }
 
         Ok(Self { url, given: None })
@@ -103,9 +105,11 @@ impl VerbatimUrl {
         let mut url = Url::from_file_path(path.clone())
             .unwrap_or_else(|()| panic!("path is absolute: {}", path.display()));
 
-        // Set the fragment, if it exists.
+        // Set the fragment, if it exists. The path was percent-decoded (or never encoded), while a
+        // file URL is decoded again when it is parsed back: keep a literal `%` as `%25` so that the
+        // displayed URL denotes the same fragment.
         if let Some(fragment) = fragment {
-            url.set_fragment(Some(fragment));
+            url.set_fragment(Some(&fragment.replace('%', "%25")));
         }
 
         Ok(Self { url, given: None })
